@@ -684,6 +684,56 @@ def expand_combinators(doc):
     return doc
 
 
+# N3a a narrowing integer `U::try_from(x)` (unsigned) is `if x > U::MAX { Err(..) } else { Ok(x as U) }`
+_UMAX = {'u8': 2 ** 8 - 1, 'u16': 2 ** 16 - 1, 'u32': 2 ** 32 - 1, 'u64': 2 ** 64 - 1, 'usize': 2 ** 64 - 1}
+
+
+def expand_int_try_from(doc):
+    n = 0
+    for b in doc['bodies']:
+        blocks = b['blocks']
+        L = b['locals']
+        for blk in list(blocks):
+            t = blk['term']
+            if t.get('k') != 'call' or blk.get('cleanup') or t.get('target') is None or len(t.get('args', [])) != 1 or t['dest']['p']:
+                continue
+            fn = (t.get('func') or {}).get('fn') or {}
+            if fn.get('path') != 'core::convert::TryFrom::try_from':
+                continue
+            ga = fn.get('generic_args') or []
+            if len(ga) != 2 or ga[0] not in _UMAX or ga[1] not in _UMAX or _UMAX[ga[0]] >= _UMAX[ga[1]]:
+                continue
+            U, T = ga
+            x = t['args'][0]
+            if x.get('k') not in ('move', 'copy'):
+                continue
+            line = t.get('line')
+            da = _ty_args(t['dest_ty'])
+            L.append({'ty': 'bool', 'ty_raw': 'bool', 'name': None, 'mut': True, 'synthetic': True})
+            cl = len(L) - 1
+            L.append({'ty': U, 'ty_raw': U, 'name': None, 'mut': True, 'synthetic': True})
+            vl = len(L) - 1
+            base = len(blocks)
+            xc = {'k': 'copy', 'place': x['place']}
+            mx = {'k': 'const', 'ty': T, 'text': '%d_%s' % (_UMAX[U], T), 'int': _UMAX[U]}
+            blk['stmts'].append({'k': 'assign', 'place': {'l': cl, 'p': []}, 'rv': {'k': 'binop', 'op': 'Gt', 'l': xc, 'r': mx, 'lty': T}, 'line': line, 'exp': False, 'syn': 'try_from'})
+            blk['term'] = {'k': 'switch', 'discr': {'k': 'move', 'place': {'l': cl, 'p': []}}, 'discr_ty': 'bool', 'targets': [[0, base]], 'otherwise': base + 1,
+                           'line': line, 'exp': False, 'syn': 'try_from'}
+            blocks.append({'cleanup': False, 'syn': 'try_from', 'stmts': [
+                {'k': 'assign', 'place': {'l': vl, 'p': []}, 'rv': {'k': 'cast', 'cast': 'IntToInt', 'op': xc, 'ty': U, 'from_ty': T}, 'line': line, 'exp': False, 'syn': 'try_from'},
+                {'k': 'assign', 'place': t['dest'], 'rv': _agg('core::result::Result', 'Ok', 0, ['0'], [{'k': 'move', 'place': {'l': vl, 'p': []}}], da), 'line': line, 'exp': False, 'syn': 'try_from'}],
+                'term': {'k': 'goto', 'target': t['target'], 'line': line}})
+            L.append({'ty': 'core::num::TryFromIntError', 'ty_raw': 'core::num::TryFromIntError', 'name': None, 'mut': True, 'synthetic': True})
+            el = len(L) - 1
+            blocks.append({'cleanup': False, 'syn': 'try_from', 'stmts': [
+                {'k': 'assign', 'place': {'l': el, 'p': []}, 'rv': _agg('core::num::TryFromIntError', 'TryFromIntError', 0, ['0'], [{'k': 'const', 'ty': '()', 'text': '()', 'zst': True}]), 'line': line, 'exp': False, 'syn': 'try_from'},
+                {'k': 'assign', 'place': t['dest'], 'rv': _agg('core::result::Result', 'Err', 1, ['0'], [{'k': 'move', 'place': {'l': el, 'p': []}}], da), 'line': line, 'exp': False, 'syn': 'try_from'}],
+                'term': {'k': 'goto', 'target': t['target'], 'line': line}})
+            n += 1
+    doc.setdefault('meta', {})['expanded_try_from'] = n
+    return doc
+
+
 # ======================================================================================================================
 # N3b `x?` is the match it abbreviates: branch on the discriminant of x itself, the Continue payload is x's Ok/Some
 #     payload, the Break arm returns Err(e)/None directly (only when `?` converts the error with the identity).
